@@ -28,6 +28,7 @@ func (m *Model) ctxAncestors(v ssa.Value) (chain []*ssa.Call, root ssa.Value) {
 	seen := map[ssa.Value]bool{}
 	for v != nil && !seen[v] {
 		seen[v] = true
+		v = m.traceValue(v)
 		switch x := v.(type) {
 		case *ssa.Extract:
 			if call, ok := x.Tuple.(*ssa.Call); ok && x.Index == 0 {
